@@ -204,7 +204,10 @@ class FindCacheFile(namedtuple('FindCacheFile', ['regen_files', 'cache'])):
 
 
 def write_depfile(env, path, output, seen_dirs, makeify=False):
-    with open(path.string(env.base_dirs), 'w') as f:
+    # Write to a temporary file first: a truncated depfile would silently make
+    # the build forget which directories to watch.
+    outpath = path.string(env.base_dirs)
+    with open(outpath + '.tmp', 'w') as f:
         # Since this file is in the build dir, we can use relative dirs for
         # deps also in the build dir.
         roots = env.base_dirs.copy()
@@ -221,6 +224,7 @@ def write_depfile(env, path, output, seen_dirs, makeify=False):
             for i in seen_dirs:
                 out.write(i.string(roots), Syntax.target)
                 out.write_literal(':\n')
+    os.replace(outpath + '.tmp', outpath)
 
 
 def _path_type(path):
